@@ -142,6 +142,30 @@ def more_multipolygons():
     ]
 
 
+def shift_z(desc, dz, name=None):
+    """The same region translated by dz lattice units along z (exact).  Footprints, everywhere and
+    nowhere are invariant; a PolylineRegion cannot leave z = 0."""
+    import copy
+
+    d = copy.deepcopy(desc)
+    k = d["k"]
+    if k in ("vol", "surf"):
+        for b in d["s"]:
+            b[4] += dz
+            b[5] += dz
+    elif k == "poly":
+        d["n"][0] += dz
+    elif k in ("rect", "circ", "sect", "sph"):
+        d["n"][2] += dz
+    elif k in ("path", "pset"):
+        for q in d["s"]:
+            q[2] += dz
+    elif k == "pline" and dz:
+        raise ValueError("a PolylineRegion lies at z = 0")
+    d["name"] = name or (f"{desc['name']}@z{dz / S:+g}" if dz else desc["name"])
+    return d
+
+
 def probe_grid():
     xs = [-4.75 + k for k in range(10)]
     zs = [-0.75, 0, 0.25, 1.25, 2, 2.25, 3.25]
@@ -209,6 +233,9 @@ def build(desc):
         return R.PolygonalRegion(polygon=g, z=f(n[0]))
     if k in ("poly", "fp"):
         g = shapely.ops.unary_union([shapely.geometry.box(f(r[0]), f(r[2]), f(r[1]), f(r[3])) for r in s])
+        if k == "fp" and desc.get("via_polygon") is not None:
+            # the footprint object a PolygonalRegion caches (PolygonalRegion.footprint)
+            return R.PolygonalRegion(polygon=g, z=desc["via_polygon"]).footprint
         if k == "fp":
             return R.PolygonalFootprintRegion(g)
         return R.PolygonalRegion(polygon=g, z=f(n[0]))
